@@ -380,6 +380,27 @@ def searchAddrs (locals : List IP) (answer : List AddrRR) : List IP :=
     else if r.rtype = 28 then usableAddr locals r.addr
     else none
 
+/-- What `checkGlueRR` left in the glue cache of one family for `host`
+(`appendUniqueAddr` over the accepted records of that host). -/
+def glueCached (accepted : List (Str × IP)) (host : Str) : Option (List IP) :=
+  let l := dedup ((accepted.filter fun p => p.1 == host).map (·.2))
+  if l.isEmpty then none else some l
+
+/-- `lookupNSAddrV4` / `lookupNSAddrV6` after a referral was processed on the
+same resolver: the glue cache of the family is read first; otherwise the host's
+own address question goes to the sub-pipeline (`sub = none`: it failed) and
+`searchAddrs` picks the usable addresses; the rcode of the sub-response plays
+no part; nothing found = error. -/
+def lookupNSAddr (locals : List IP) (cached : Option (List IP)) (sub : Option (List AddrRR)) : Option (List IP) :=
+  match cached with
+  | some l => some l
+  | none =>
+    match sub with
+    | none => none
+    | some ans =>
+      let l := searchAddrs locals ans
+      if l.isEmpty then none else some l
+
 /-! ### `Cache.additionalAnswer` (the alias chase) -/
 
 /-- A record as the chase sees it: owner, type and, for a CNAME, its target. -/
